@@ -20,6 +20,7 @@ import (
 	"net/textproto"
 	"reflect"
 	"sort"
+	"strconv"
 	"strings"
 	"time"
 
@@ -194,13 +195,19 @@ func (rt *stubRT) RoundTrip(req *http.Request) (*http.Response, error) {
 	if m := req.Header.Get("X-Verif-Mode"); m != "" {
 		mode = m
 	}
-	if strings.HasPrefix(mode, "slow+") {
+	if strings.HasPrefix(mode, "slow") && strings.Contains(mode, "+") {
 		// the backend takes 11 s (longer than every window and timeout of the harness
-		// configurations) before it answers: the virtual clock moves while the request is in flight
-		if s := vrt.Cur(); s != nil {
-			s.AdvanceQuiet(11 * time.Second)
+		// configurations) before it answers - or the number of seconds given, "slow61+ok": the
+		// virtual clock moves while the request is in flight
+		secs := 11
+		plus := strings.Index(mode, "+")
+		if n, err := strconv.Atoi(mode[len("slow"):plus]); err == nil {
+			secs = n
 		}
-		mode = mode[len("slow+"):]
+		if s := vrt.Cur(); s != nil {
+			s.AdvanceQuiet(time.Duration(secs) * time.Second)
+		}
+		mode = mode[plus+1:]
 	}
 	if strings.HasPrefix(mode, "103+") {
 		// an interim response first, delivered the way a real transport does (client trace hook,
@@ -226,6 +233,10 @@ func (rt *stubRT) RoundTrip(req *http.Request) (*http.Response, error) {
 	return mkResp(req, 200, "ok from "+st.name), nil
 }
 
+// kitProbePeriod is the active health-check interval of every kit (ticks are fired by the
+// harness, never by time)
+const kitProbePeriod = 5000 * time.Second
+
 func kitConfig(o kitOpts) *config.Config {
 	cfg := &config.Config{}
 	cfg.Server.Port = 8080
@@ -250,7 +261,9 @@ func kitConfig(o kitOpts) *config.Config {
 		cfg.HealthChecks.Passive.UnhealthyTimeout = win
 	}
 	if o.Active {
-		cfg.HealthChecks.Active = config.ActiveHealthCheckConfig{Enabled: true, Interval: 5, Timeout: 2, Path: "/health"}
+		// (the probe client's timeout is a real-time timer inside net/http, which the virtual
+		// clock does not own: it is configured so long that a starved test process cannot reach it)
+		cfg.HealthChecks.Active = config.ActiveHealthCheckConfig{Enabled: true, Interval: int(kitProbePeriod / time.Second), Timeout: 2000, Path: "/health"}
 	}
 	if o.Breaker != nil {
 		cfg.CircuitBreaker = *o.Breaker
